@@ -154,7 +154,7 @@ def coqR(t):
         if q.denominator == 1 and q >= 0:
             return "(%s ^ %d)" % (coqR(t[1]), q.numerator)
         return "(Rpower %s %s)" % (coqR(t[1]), coqR(('c', q)))
-    if k in ('exp', 'ln', 'sqrt'):
+    if k in ('exp', 'ln', 'sqrt', 'cos'):
         return "(%s %s)" % (k, coqR(t[1]))
     return "(%s %s %s)" % (coqR(t[1]), k, coqR(t[2]))
 
@@ -1283,3 +1283,280 @@ def read_midpoint(repo):
         if got.get(k) != v:
             raise TranslateError("_simu.py midpoint branch: %s = %s, expected %s" % (k, got.get(k), v))
     return want
+
+
+# ----------------------------------------------------------------------------------------
+# Clenshaw-Curtis rule of TimeQuadratureStressTensor: symbolic execution of __clenshaw_curtis
+# for a concrete nPoints.  Values: Fraction-free rtrees with ('v','PI') and ('cos', a);
+# arrays are python lists of rtrees.  Accepted: the numpy subset the function uses.
+# ----------------------------------------------------------------------------------------
+import math as _math
+
+
+def _num(t):
+    """float value of a CC rtree (used only to decide the np.where snap and loop-free guards)."""
+    k = t[0]
+    if k == 'c':
+        return float(t[1])
+    if k == 'v':
+        if t[1] == 'PI':
+            return _math.pi
+        raise TranslateError("clenshaw_curtis: free variable %s" % t[1])
+    if k == 'neg':
+        return -_num(t[1])
+    if k == 'cos':
+        return _math.cos(_num(t[1]))
+    if k == 'pow':
+        return _num(t[1]) ** float(t[2])
+    a, b = _num(t[1]), _num(t[2])
+    return a + b if k == '+' else a - b if k == '-' else a * b if k == '*' else a / b
+
+
+def read_clenshaw_curtis(repo, nPoints):
+    path = os.path.join(repo, "EasyFEA", "FEM", "Operators", "NonLinear.py")
+    mod = ast.parse(open(path).read())
+    fn = [n for n in mod.body if isinstance(n, ast.FunctionDef) and n.name == "__clenshaw_curtis"]
+    if len(fn) != 1:
+        raise TranslateError("NonLinear.py: __clenshaw_curtis not found")
+    fn = fn[0]
+    if [a.arg for a in fn.args.args] != ["nPoints"]:
+        raise TranslateError("NonLinear.py __clenshaw_curtis: signature")
+    where = "NonLinear.py:__clenshaw_curtis"
+    env = {"nPoints": nPoints}
+
+    class Ret(Exception):
+        pass
+
+    def is_arr(x):
+        return isinstance(x, list)
+
+    def lift(x):
+        if isinstance(x, bool):
+            raise TranslateError("%s: boolean used as a number" % where)
+        if isinstance(x, int):
+            return ('c', Fraction(x))
+        if isinstance(x, float):
+            return ('c', Fraction(repr(x)))
+        return x
+
+    def bin(op, a, b):
+        if is_arr(a) or is_arr(b):
+            if is_arr(a) and is_arr(b):
+                if len(a) != len(b):
+                    raise TranslateError("%s: array shapes" % where)
+                return [bin(op, x, y) for x, y in zip(a, b)]
+            if is_arr(a):
+                return [bin(op, x, b) for x in a]
+            return [bin(op, a, y) for y in b]
+        if isinstance(a, int) and isinstance(b, int) and not isinstance(a, bool) and not isinstance(b, bool):
+            if op == '+':
+                return a + b
+            if op == '-':
+                return a - b
+            if op == '*':
+                return a * b
+            if op == '//':
+                return a // b
+            if op == '%':
+                return a % b
+            if op == '**' and b >= 0:
+                return a ** b
+        if op in ('//', '%'):
+            raise TranslateError("%s: integer operator on non-integers" % where)
+        if op == '**':
+            if isinstance(b, int):
+                return ('pow', lift(a), Fraction(b))
+            raise TranslateError("%s: exponent" % where)
+        return (op, lift(a), lift(b))
+
+    def ev_(n):
+        if isinstance(n, ast.Constant):
+            if isinstance(n.value, (int, float)) and not isinstance(n.value, bool):
+                return n.value
+            raise TranslateError("%s: constant %r" % (where, n.value))
+        if isinstance(n, ast.Name):
+            if n.id in env:
+                return env[n.id]
+            raise TranslateError("%s: unbound %s" % (where, n.id))
+        if isinstance(n, ast.Attribute) and ast.unparse(n) == "np.pi":
+            return ('v', 'PI')
+        if isinstance(n, ast.UnaryOp) and isinstance(n.op, ast.USub):
+            v = ev_(n.operand)
+            if is_arr(v):
+                return [('neg', lift(x)) for x in v]
+            return -v if isinstance(v, (int, float)) else ('neg', v)
+        if isinstance(n, ast.BinOp):
+            ops = {ast.Add: '+', ast.Sub: '-', ast.Mult: '*', ast.Div: '/', ast.FloorDiv: '//', ast.Mod: '%', ast.Pow: '**'}
+            if type(n.op) not in ops:
+                raise TranslateError("%s: operator line %d" % (where, n.lineno))
+            return bin(ops[type(n.op)], ev_(n.left), ev_(n.right))
+        if isinstance(n, ast.Compare) and len(n.ops) == 1:
+            a, b = ev_(n.left), ev_(n.comparators[0])
+            if is_arr(a) or is_arr(b):
+                if isinstance(n.ops[0], ast.Lt) and is_arr(a) and not is_arr(b):
+                    return [_num(lift(x)) < _num(lift(b)) for x in a]
+                raise TranslateError("%s: array comparison line %d" % (where, n.lineno))
+            if isinstance(a, int) and isinstance(b, int):
+                o = n.ops[0]
+                return a == b if isinstance(o, ast.Eq) else a != b if isinstance(o, ast.NotEq) else a < b if isinstance(o, ast.Lt) \
+                    else a >= b if isinstance(o, ast.GtE) else a > b if isinstance(o, ast.Gt) else a <= b
+            raise TranslateError("%s: comparison line %d" % (where, n.lineno))
+        if isinstance(n, ast.Subscript):
+            base = ev_(n.value)
+            if not is_arr(base):
+                raise TranslateError("%s: subscript of a scalar" % where)
+            sl = n.slice
+            if isinstance(sl, ast.Slice):
+                if sl.lower is None and sl.upper is None and sl.step is not None and ev_(sl.step) == -1:
+                    return base[::-1]
+                raise TranslateError("%s: slice line %d" % (where, n.lineno))
+            idx = ev_(sl)
+            if is_arr(idx):
+                return [base[i] for i in idx]
+            if isinstance(idx, int):
+                return base[idx]
+            raise TranslateError("%s: index line %d" % (where, n.lineno))
+        if isinstance(n, ast.Tuple):
+            return tuple(ev_(e) for e in n.elts)
+        if isinstance(n, ast.Call):
+            f = ast.unparse(n.func)
+            a = [ev_(x) for x in n.args]
+            if n.keywords:
+                raise TranslateError("%s: keywords in %s" % (where, f))
+            if f == "np.arange" and all(isinstance(x, int) for x in a):
+                return list(range(*a))
+            if f == "np.cos" and len(a) == 1:
+                return [('cos', lift(x)) for x in a[0]] if is_arr(a[0]) else ('cos', lift(a[0]))
+            if f == "np.zeros" and len(a) == 1 and isinstance(a[0], int):
+                return [0] * a[0]
+            if f == "np.ones" and len(a) == 1 and isinstance(a[0], int):
+                return [1] * a[0]
+            if f == "np.abs" and len(a) == 1 and is_arr(a[0]):
+                return [('c', Fraction(repr(abs(_num(lift(x)))))) for x in a[0]]     # only feeds the snap test below
+            if f == "np.where" and len(a) == 3 and is_arr(a[0]) and is_arr(a[2]):
+                return [lift(a[1]) if c else x for c, x in zip(a[0], a[2])]
+            if f == "tuple" and len(a) == 1 and is_arr(a[0]):
+                return list(a[0])
+            if f == "range" and all(isinstance(x, int) for x in a):
+                return list(range(*a))
+            raise TranslateError("%s: call %s line %d" % (where, f, n.lineno))
+        raise TranslateError("%s: expression %s" % (where, ast.unparse(n)[:60]))
+
+    def run(stmts):
+        for st in stmts:
+            if isinstance(st, ast.Expr) and isinstance(st.value, ast.Constant):
+                continue
+            if isinstance(st, ast.Assert):
+                if ev_(st.test) is not True:
+                    raise TranslateError("%s: assertion fails for nPoints=%d" % (where, nPoints))
+                continue
+            if isinstance(st, ast.If):
+                c = ev_(st.test)
+                if not isinstance(c, bool):
+                    raise TranslateError("%s: non-boolean test line %d" % (where, st.lineno))
+                run(st.body if c else st.orelse)
+                continue
+            if isinstance(st, ast.For) and isinstance(st.target, ast.Name) and not st.orelse:
+                for v in ev_(st.iter):
+                    env[st.target.id] = v
+                    run(st.body)
+                continue
+            if isinstance(st, ast.Assign):
+                val = ev_(st.value)
+                for t in st.targets:
+                    if isinstance(t, ast.Name):
+                        env[t.id] = list(val) if is_arr(val) else val
+                    elif isinstance(t, ast.Subscript) and isinstance(t.value, ast.Name) and is_arr(env.get(t.value.id)):
+                        idx = ev_(t.slice)
+                        arr = env[t.value.id]
+                        if is_arr(idx):
+                            if not is_arr(val) or len(val) != len(idx):
+                                raise TranslateError("%s: store shapes line %d" % (where, st.lineno))
+                            for i, x in zip(idx, val):
+                                arr[i] = x
+                        else:
+                            arr[idx] = val
+                    else:
+                        raise TranslateError("%s: assignment target line %d" % (where, st.lineno))
+                continue
+            if isinstance(st, ast.AugAssign) and isinstance(st.target, ast.Name) and isinstance(st.op, (ast.Sub, ast.Add)):
+                env[st.target.id] = bin('-' if isinstance(st.op, ast.Sub) else '+', env[st.target.id], ev_(st.value))
+                continue
+            if isinstance(st, ast.Return):
+                env["__ret__"] = ev_(st.value)
+                raise Ret()
+            raise TranslateError("%s: statement %s line %d" % (where, type(st).__name__, st.lineno))
+    try:
+        run(_body(fn))
+    except Ret:
+        pass
+    r = env.get("__ret__")
+    if isinstance(r, tuple):
+        r = tuple(list(x) if isinstance(x, tuple) else x for x in r)
+    if not (isinstance(r, tuple) and len(r) == 2 and all(is_arr(x) for x in r) and len(r[0]) == len(r[1]) == nPoints):
+        raise TranslateError("%s: does not return (nodes, weights) of length nPoints=%d" % (where, nPoints))
+    return [lift(x) for x in r[0]], [lift(x) for x in r[1]]
+
+
+CC_ALL = list(range(1, 34))
+
+
+def cc_degree(nPoints):
+    """polynomial degree the rule must integrate exactly: a Clenshaw-Curtis rule on n+1 points is
+       interpolatory (degree n) and symmetric (one more degree when n is even); 1 point = midpoint."""
+    if nPoints == 1:
+        return 1
+    n = nPoints - 1
+    return n + 1 if n % 2 == 0 else n
+
+
+def emit_cc(repo, tier="quick"):
+    """dict filename -> text: Gen_CC_defs.v (nodes/weights of every rule 1..33 as real expressions in PI, cos),
+       Gen_CC_sum.v (weights sum to 1, nodes in [0,1]), Gen_CC_mom<i>.v (exactness on monomials)."""
+    pre = ["From Coq Require Import Reals List.", "Import ListNotations.", "Open Scope R_scope."]
+    defs = [HDR % "EasyFEA/FEM/Operators/NonLinear.py __clenshaw_curtis"] + pre + [
+        "Fixpoint rsum (l : list R) : R := match l with [] => 0 | x :: l' => x + rsum l' end.",
+        "Fixpoint moment (d : nat) (ws xs : list R) : R := match ws, xs with w :: ws', x :: xs' => w * x ^ d + moment d ws' xs' | _, _ => 0 end.", ""]
+    for N in CC_ALL:
+        xs, ws = read_clenshaw_curtis(repo, N)
+        defs.append("Definition cc_x_%d : list R := [%s]." % (N, "; ".join(coqR(t) for t in xs)))
+        defs.append("Definition cc_w_%d : list R := [%s]." % (N, "; ".join(coqR(t) for t in ws)))
+    head = [HDR % "EasyFEA/FEM/Operators/NonLinear.py __clenshaw_curtis"] + pre + ["From Interval Require Import Tactic.", "From EFP Require Import Gen_CC_defs.", ""]
+    sm = list(head)
+    for N in CC_ALL:
+        sm.append("Lemma cc_%d_weights_sum : Rabs (rsum cc_w_%d - 1) <= 1 / 10 ^ 12." % (N, N))
+        sm.append("Proof. unfold cc_w_%d, rsum. interval with (i_prec 80). Qed." % N)
+    sm.append("(* the finite set of rules the code can use: nPoints = 1..33 (adaptive chain 1,3,5,9,17,33, capped by maxPoints = 33) *)")
+    sm.append("Theorem clenshaw_curtis_weights_sum :\n  " + " /\\\n  ".join("Rabs (rsum cc_w_%d - 1) <= 1 / 10 ^ 12" % N for N in CC_ALL) + ".")
+    sm.append("Proof. repeat split; [ %s ]. Qed." % " | ".join("exact cc_%d_weights_sum" % N for N in CC_ALL))
+    sm.append("Print Assumptions clenshaw_curtis_weights_sum.")
+    # exactness on monomials x^d, d = 1 .. degree (quick: rules up to 9 points; thorough: all, thinned for 18..32)
+    jobs = []
+    for N in CC_ALL:
+        deg = cc_degree(N)
+        if tier == "quick":
+            ds = list(range(1, deg + 1)) if N <= 9 else []
+        elif N <= 17 or N == 33:
+            ds = list(range(1, deg + 1))
+        else:
+            ds = sorted(set([1, 2, 3, 4, deg]))
+        jobs += [(N, d) for d in ds]
+    nfiles = 1 if tier == "quick" else 3
+    cost = lambda j: j[0] * j[0]
+    files = [[] for _ in range(nfiles)]
+    for j in sorted(jobs, key=cost, reverse=True):
+        min(files, key=lambda f: sum(cost(x) for x in f)).append(j)
+    texts = {"Gen_CC_defs.v": "\n".join(defs) + "\n", "Gen_CC_sum.v": "\n".join(sm) + "\n"}
+    for i, f in enumerate(files):
+        m = list(head)
+        names = []
+        for N, d in sorted(f):
+            m.append("Lemma cc_%d_moment_%d : Rabs (moment %d cc_w_%d cc_x_%d - 1 / %d) <= 1 / 10 ^ 10." % (N, d, d, N, N, d + 1))
+            m.append("Proof. unfold cc_w_%d, cc_x_%d, moment. interval with (i_prec 80). Qed." % (N, N))
+            names.append("cc_%d_moment_%d" % (N, d))
+        m.append("Theorem clenshaw_curtis_exactness_%d : %s." % (i, " /\\\n  ".join(
+            "Rabs (moment %d cc_w_%d cc_x_%d - 1 / %d) <= 1 / 10 ^ 10" % (d, N, N, d + 1) for N, d in sorted(f))))
+        m.append("Proof. repeat split; [ %s ]. Qed." % " | ".join("exact %s" % x for x in names))
+        m.append("Print Assumptions clenshaw_curtis_exactness_%d." % i)
+        texts["Gen_CC_mom%d.v" % i] = "\n".join(m) + "\n"
+    return texts
